@@ -281,6 +281,15 @@ def run_case(case: Dict) -> CaseResult:
                         res.violate("action-on-deleted-folder-succeeds", when)
                 else:
                     res.violate("delete-live-folder-refused", f"{when}: {status}")
+        elif k == "file_verb":
+            # a live file is available to actions: scan / corrupt / repair / restore of a live file in a live folder
+            # reach that file and report success (checkhash is documented as not implemented)
+            if pre_file_live and pre_folder_live and op[3] in ("scan", "corrupt", "repair", "restore") and status != "success":
+                res.violate(f"action-on-live-file-refused:{op[3]}", f"{when}: file is live but status {status}")
+            if pre_file_live and pre_folder_live and op[3] == "corrupt" and status == "success":
+                f_ = live_file(fo, fi)
+                if f_ is not None and f_.health_status.name == "GOOD":
+                    res.violate("corrupt-success-but-live-file-untouched", when)
         elif k == "restore_file":
             if (fo, fi) in seen_delete:
                 nontrivial = True
